@@ -37,6 +37,11 @@ Definition SITE_NO_ARP := 4.       (* was canary_linux.go send(): ae.HardwareAdd
 Definition SITE_TABLE_FULL := 5.   (* was state.go: panic("Statetable full") *)
 Definition SITE_ARP := 6.          (* arp.go: data[:f.HardwareSize] beyond the buffer (handleARP is unreachable) *)
 Definition SITE_ETH := 7.          (* ethernet.go: data[12:14] on fewer than 14 bytes (excluded by hypothesis) *)
+(* observation-only codes (never produced by the model): 11 hang, 12 decoder goroutine,
+   13 knock detector, 14 icmp.Parse, 15 udp.Unmarshal, 16 tcp.Unmarshal on a segment of 20
+   or more bytes outside the index expression data[1]: the walk over the option area or
+   the store that receives its entries *)
+Definition SITE_TCP_OPTWALK := 16.
 
 Definition OUT_OF_FUEL := 99.
 
@@ -68,52 +73,57 @@ Definition ipv4_parse (b : bytes) : res iphdr :=
       else Ok (mkIp hdrlen tot (byte_at b 9) (u32_at b 12) (u32_at b 16) (slice b 20 tot)).
 
 (* ---------- tcp.Unmarshal ---------- *)
-(* the option loop; [d] is data[20:dataStart]; returns the number of options appended.
+(* the option loop; [d] is data[20:dataStart].  Returns hdr.Options as the loop leaves it -
+   one (OptionType, OptionLength) per iteration, in order, the entry of a failing
+   iteration included (append comes first; OptionLength is still 0 when the length byte
+   is missing) - and the error (0: the loop ended or left by break).  hdr.Options grows
+   by append: the list has no bound other than the one the input gives it.
    Every iteration consumes at least one byte: fuel = length d suffices. *)
-Fixpoint tcp_opts (fuel : nat) (d : bytes) (n : Z) : res Z :=
+Definition opt := (N * N)%type.     (* OptionType, OptionLength *)
+
+Fixpoint tcp_opts (fuel : nat) (d : bytes) : list opt * Z :=
   match fuel with
-  | O => match d with [] => Ok n | _ => Err OUT_OF_FUEL end
+  | O => match d with [] => ([], 0) | _ => ([], OUT_OF_FUEL) end
   | S f =>
       match d with
-      | [] => Ok n
+      | [] => ([], 0)
       | k :: r =>
-          if (k =? 0)%N then Ok (n + 1)                          (* EndList: break Loop *)
-          else if (k =? 1)%N then tcp_opts f r (n + 1)           (* Nop *)
+          if (k =? 0)%N then ([(k, 1%N)], 0)                       (* EndList: break Loop *)
+          else if (k =? 1)%N then
+            let '(os, c) := tcp_opts f r in ((k, 1%N) :: os, c)    (* Nop *)
           else match r with
-               | [] => Err 5                                     (* len(data) < 2: kind without length *)
+               | [] => ([(k, 0%N)], 5)                             (* len(data) < 2: kind without length *)
                | l :: _ =>
-                   if (l <? 2)%N then Err 3
-                   else if Z.of_N l >? zlen d then Err 4
-                   else tcp_opts f (skipn (N.to_nat l) d) (n + 1) (* data[2:l]; data = data[l:] *)
+                   if (l <? 2)%N then ([(k, l)], 3)
+                   else if Z.of_N l >? zlen d then ([(k, l)], 4)
+                   else let '(os, c) := tcp_opts f (skipn (N.to_nat l) d) in
+                        ((k, l) :: os, c)                          (* data[2:l]; data = data[l:] *)
                end
       end
   end.
 
 Record thdr := mkT {
   t_sport : Z; t_dport : Z; t_seq : Z; t_ack : Z; t_off : Z; t_flags : Z; t_csum : Z;
-  t_payload : bytes; t_nopts : Z }.
+  t_payload : bytes; t_opts : list opt }.
 
 (* THdr h e: Unmarshal returned (e = 0: nil, otherwise the error) leaving [h] in the header.
    TPanic is no longer produced by the repaired parser (tcp_parse_no_panic). *)
 Inductive tres := TPanic (site : Z) | THdr (h : thdr) (e : Z).
 
 Definition tcp_parse (d : bytes) : tres :=
-  if zlen d <? 20 then THdr (mkT 0 0 0 0 0 0 0 [] 0) 5    (* len(data) < 20: error, header untouched *)
+  if zlen d <? 20 then THdr (mkT 0 0 0 0 0 0 0 [] []) 5   (* len(data) < 20: error, header untouched *)
   else
     let off := byte_at d 12 / 16 in
-    let mk p n := mkT (u16_at d 0) (u16_at d 2) (u32_at d 4) (u32_at d 8) off
-                      (byte_at d 13 mod 64) (u16_at d 16) p n in
-    if off <? 5 then THdr (mk [] 0) 1
+    let mk p os := mkT (u16_at d 0) (u16_at d 2) (u32_at d 4) (u32_at d 8) off
+                       (byte_at d 13 mod 64) (u16_at d 16) p os in
+    if off <? 5 then THdr (mk [] []) 1
     else
       let ds := off * 4 in
-      if ds >? zlen d then THdr (mk [] 0) 2
+      if ds >? zlen d then THdr (mk [] []) 2
       else
         let opts := slice d 20 ds in
-        match tcp_opts (length opts) opts 0 with
-        | Ok n => THdr (mk (skipn (Z.to_nat ds) d) n) 0
-        | Err c => THdr (mk (skipn (Z.to_nat ds) d) 0) c
-        | Panic s => TPanic s
-        end.
+        let '(os, c) := tcp_opts (length opts) opts in
+        THdr (mk (skipn (Z.to_nat ds) d) os) c.
 
 Definition FIN := 1. Definition SYN := 2. Definition RST := 4.
 Definition PSH := 8. Definition ACK := 16.
